@@ -70,6 +70,8 @@ type HarnessRun struct {
 	Assumes       int
 	maxTraces     int
 	UsedOverrides bool
+	NonFaithful   bool
+	EngineOnlyAPI bool // the harness called vRunSpawned/vSpawnCount/vSendCount/vLocksHeldNow/vDistinctRandom (no native counterpart)
 	CrossChecked  int
 	CrossDisagree int
 }
